@@ -1,5 +1,5 @@
 """C06 Rule checking accepts exactly the well-formed expressions, context-free."""
-import re
+import re, random
 import common, gen
 from common import hexs, unhex
 from props import lib
@@ -18,6 +18,9 @@ def run(rep, tier, seed, replay):
         # what repeating a body makes adjacent: every kind of token at either end of the body x bounds x neighbours
         exprs += [e for e in gen.rep_body_family() if e not in set(exprs)]
         exprs += [e for e in gen.sole_boundary_family() if e not in set(exprs)]
+        # three and four levels of nesting with an edge terminal at every level: the context each level hands down
+        n4 = gen.nest3_family(4)
+        exprs += [e for e in gen.nest3_family(3) + (random.Random(seed + 11).sample(n4, 2000) if tier == "quick" else n4) if e not in set(exprs)]
         # the size rule (R7): invariants of 0x10000 bytes or more assembled from one token or from siblings
         big = ["<a:33000>", "<b:33000>", "<a:65535>", "<a:65536>", "<ab:32768>", "<<a:300>:300>", "<<a:256>:256>", "b", "/", "*", "{<a:33000><b:33000>,c}", "<a:32768><b:32767>", "<é:32768>"]
         exprs += [e for e in gen.small_scope(2, big) + ["<<a:33000><b:33000>:0,1>", "*/{c,x<a:65535>}", "x{<a:65535>b,c}"] if e not in set(exprs)]
